@@ -398,9 +398,10 @@ type remoteLayout struct {
 	Reqs       []int  `json:"request_sizes"`
 	CaseTwins  bool   `json:"case_twins,omitempty"`  // page addresses differ only in letter case
 	PathCursor bool   `json:"path_cursor,omitempty"` // page addresses carry an escaped cursor in the path
-	NoIDs      bool   `json:"no_ids,omitempty"`      // the collection and its pages carry no id member
-	RefStyle   []int  `json:"ref_style,omitempty"`   // per page: successor written as 0 address | 1 {id} | 2 {id,type}
-	Nulls      bool   `json:"nulls,omitempty"`       // the last page says "next": null instead of leaving it out
+	Nulled     []int  `json:"pages_with_a_null_entry,omitempty"`
+	NoIDs      bool   `json:"no_ids,omitempty"`    // the collection and its pages carry no id member
+	RefStyle   []int  `json:"ref_style,omitempty"` // per page: successor written as 0 address | 1 {id} | 2 {id,type}
+	Nulls      bool   `json:"nulls,omitempty"`     // the last page says "next": null instead of leaving it out
 }
 
 func remoteCase(c *ev.Ctx, s *sim.Sim, r *rand.Rand, n int) {
@@ -469,7 +470,21 @@ func remoteCase(c *ev.Ctx, s *sim.Sim, r *rand.Rand, n int) {
 	if l.Ordered {
 		kind, key = "OrderedCollection", "orderedItems"
 	}
-	tag := func(p, i int) string { return fmt.Sprintf("e-%d-%d", p, i) }
+	nullAt := map[[2]int]bool{}
+	if r.Intn(5) == 0 {
+		for p, n := range l.Sizes {
+			if n > 1 && r.Intn(2) == 0 {
+				nullAt[[2]int{p, r.Intn(n - 1)}] = true // never the last entry of a page
+				l.Nulled = append(l.Nulled, p)
+			}
+		}
+	}
+	tag := func(p, i int) string {
+		if nullAt[[2]int{p, i}] {
+			return "non-string:<nil>"
+		}
+		return fmt.Sprintf("e-%d-%d", p, i)
+	}
 	for p := 0; p <= np; p++ {
 		doc := map[string]any{"id": addr(p), "type": kind}
 		if l.NoIDs {
@@ -483,6 +498,9 @@ func remoteCase(c *ev.Ctx, s *sim.Sim, r *rand.Rand, n int) {
 		items := make([]any, l.Sizes[p])
 		for i := range items {
 			items[i] = tag(p, i)
+			if nullAt[[2]int{p, i}] {
+				items[i] = nil // a null entry occupies its position like any other entry that cannot be shown
+			}
 		}
 		doc[key] = items
 		doc["totalItems"] = []any{99.0, 99.0, 0.0, 0.0, 1.0, "x", -3.0}[r.Intn(7)]
@@ -552,111 +570,120 @@ func remoteCase(c *ev.Ctx, s *sim.Sim, r *rand.Rand, n int) {
 	fail := func(sig, f string, a ...any) {
 		c.Violation("paging:remote:"+sig, fmt.Sprintf(f, a...)+fmt.Sprintf("\nlayout %+v", l), d)
 	}
-	item, err := pub.NewCollection(base, nil, construct)
-	if err != nil {
-		fail("root-rejected", "NewCollection failed on a well-formed remote root: %v", err)
-		return
-	}
-	var cont pub.Container = item
-	var off uint
-	page, idx := 0, 0 // position of the next expected item in the reference walk
-	consecutiveEmpty := 0
-	failed := false
-	// advance the reference to the next existing item; reports whether a cut is legitimate on the way
-	advance := func() (tagWanted string, cutOK bool, ended bool) {
-		empt := 0
-		p, i := page, idx
-		for steps := 0; steps < 64; steps++ {
-			if i < l.Sizes[p] {
-				page, idx = p, i
-				return tag(p, i), cutOK || empt >= 4, false
-			}
-			if !(p == page && idx > 0) || l.Sizes[p] == 0 {
-				if l.Sizes[p] == 0 {
-					empt++
+	// the chain is walked twice: the second walk is answered from the response cache, i.e. from the very documents the first walk
+	// has already decoded and read - reading a document must not change it
+	walk := func(pass string) bool {
+		fail := func(sig, f string, a ...any) { fail(sig, pass+f, a...) }
+		item, err := pub.NewCollection(base, nil, construct)
+		if err != nil {
+			fail("root-rejected", "NewCollection failed on a well-formed remote root: %v", err)
+			return false
+		}
+		var cont pub.Container = item
+		var off uint
+		page, idx := 0, 0 // position of the next expected item in the reference walk
+		consecutiveEmpty := 0
+		failed := false
+		// advance the reference to the next existing item; reports whether a cut is legitimate on the way
+		advance := func() (tagWanted string, cutOK bool, ended bool) {
+			empt := 0
+			p, i := page, idx
+			for steps := 0; steps < 64; steps++ {
+				if i < l.Sizes[p] {
+					page, idx = p, i
+					return tag(p, i), cutOK || empt >= 4, false
+				}
+				if !(p == page && idx > 0) || l.Sizes[p] == 0 {
+					if l.Sizes[p] == 0 {
+						empt++
+					}
+				}
+				np2, why := next(p)
+				if np2 < 0 {
+					return "", why == "broken" || empt >= 4, true
+				}
+				p, i = np2, 0
+				if empt >= 4 {
+					cutOK = true
 				}
 			}
-			np2, why := next(p)
-			if np2 < 0 {
-				return "", why == "broken" || empt >= 4, true
+			return "", true, true // endless empties
+		}
+		_ = consecutiveEmpty
+		delivered := 0
+		for req := 0; req < 12; req++ {
+			nReq := 4
+			if req < len(l.Reqs) {
+				nReq = l.Reqs[req]
 			}
-			p, i = np2, 0
-			if empt >= 4 {
-				cutOK = true
+			mark := s.LogLen()
+			var items []pub.Tangible
+			var nextC pub.Container
+			var nextOff uint
+			done := make(chan struct{})
+			go func() {
+				defer close(done)
+				c.Guard("paging:remote:", d, func() { items, nextC, nextOff = cont.Harvest(uint(nReq), off) })
+			}()
+			select {
+			case <-done:
+			case <-time.After(15 * time.Second):
+				c.Abandon("paging:remote:does-not-return", fmt.Sprintf("Harvest(%d) on a %s chain did not return within 15 s; layout %+v", nReq, l.Tail, l), d)
 			}
-		}
-		return "", true, true // endless empties
-	}
-	_ = consecutiveEmpty
-	delivered := 0
-	for req := 0; req < 12; req++ {
-		nReq := 4
-		if req < len(l.Reqs) {
-			nReq = l.Reqs[req]
-		}
-		mark := s.LogLen()
-		var items []pub.Tangible
-		var nextC pub.Container
-		var nextOff uint
-		done := make(chan struct{})
-		go func() {
-			defer close(done)
-			c.Guard("paging:remote:", d, func() { items, nextC, nextOff = cont.Harvest(uint(nReq), off) })
-		}()
-		select {
-		case <-done:
-		case <-time.After(15 * time.Second):
-			c.Abandon("paging:remote:does-not-return", fmt.Sprintf("Harvest(%d) on a %s chain did not return within 15 s; layout %+v", nReq, l.Tail, l), d)
-		}
-		c.Count("harvest_calls", 1)
-		visited := s.LogLen() - mark
-		if visited > nReq+8 {
-			fail("unbounded-visits", "request %d for %d items fetched %d pages", req, nReq, visited)
-			return
-		}
-		for _, it := range items {
-			id := stub.IDOf(it)
-			if failed {
-				fail("item-after-error", "request %d delivered %s after an error item", req, id)
-				return
+			c.Count("harvest_calls", 1)
+			visited := s.LogLen() - mark
+			if visited > nReq+8 {
+				fail("unbounded-visits", "request %d for %d items fetched %d pages", req, nReq, visited)
+				return false
 			}
-			want, cutOK, ended := advance()
-			if id == "FAIL" {
-				failed = true
-				if !cutOK {
-					fail("illegitimate-cut", "request %d cut the delivery after %d items (%s) although the next item %q is reachable without a broken page or four consecutive empty pages", req, delivered, stripSGR(it.Name()), want)
-					return
+			for _, it := range items {
+				id := stub.IDOf(it)
+				if failed {
+					fail("item-after-error", "request %d delivered %s after an error item", req, id)
+					return false
 				}
-				c.Count("legit_cuts_seen", 1)
-				continue
-			}
-			if ended {
-				fail("extra-item", "request %d delivered %s beyond the end of the chain", req, id)
-				return
-			}
-			if id != want {
-				fail("gap-or-reorder", "request %d delivered %s, expected %s (item %d)", req, id, want, delivered)
-				return
-			}
-			delivered++
-			idx++
-		}
-		if nextC == nil {
-			if !failed {
-				if _, cutOK, ended := advance(); !ended && !cutOK {
-					fail("lost-items", "paging ended without an error after %d items although more are reachable", delivered)
+				want, cutOK, ended := advance()
+				if id == "FAIL" {
+					failed = true
+					if !cutOK {
+						fail("illegitimate-cut", "request %d cut the delivery after %d items (%s) although the next item %q is reachable without a broken page or four consecutive empty pages", req, delivered, stripSGR(it.Name()), want)
+						return false
+					}
+					c.Count("legit_cuts_seen", 1)
+					continue
 				}
+				if ended {
+					fail("extra-item", "request %d delivered %s beyond the end of the chain", req, id)
+					return false
+				}
+				if id != want {
+					fail("gap-or-reorder", "request %d delivered %s, expected %s (item %d)", req, id, want, delivered)
+					return false
+				}
+				delivered++
+				idx++
 			}
-			c.Count("exhausted_runs", 1)
-			return
+			if nextC == nil {
+				if !failed {
+					if _, cutOK, ended := advance(); !ended && !cutOK {
+						fail("lost-items", "paging ended without an error after %d items although more are reachable", delivered)
+					}
+				}
+				c.Count("exhausted_runs", 1)
+				return true
+			}
+			if cc, ok := nextC.(*pub.Collection); ok && cc == nil {
+				fail("typed-nil-continuation", "request %d returned a typed nil", req)
+				return false
+			}
+			cont, off = nextC, nextOff
 		}
-		if cc, ok := nextC.(*pub.Collection); ok && cc == nil {
-			fail("typed-nil-continuation", "request %d returned a typed nil", req)
-			return
-		}
-		cont, off = nextC, nextOff
+		c.Count("capped_runs_on_cyclic_chains", 1)
+		return true
 	}
-	c.Count("capped_runs_on_cyclic_chains", 1)
+	if walk("") && l.Tail == "" {
+		walk("second walk over the same (cached) documents: ")
+	}
 }
 
 func randomCase(r *rand.Rand) caseDesc {
